@@ -1482,10 +1482,17 @@ KIND_ITEMS = {"rtlil": "designs", "sim-trace": "sims", "build-plan": "plans"}
 
 
 def check_double_conversion(D):
-    """two conversions of freshly built copies of the design in this interpreter: (differs, [sha, sha])"""
+    """two conversions of freshly built copies of the design, and two conversions of one and the same design object,
+    in this interpreter: (differs, [sha, ...])"""
+    from amaranth.back import rtlil
     t1 = elaborate_obs(D)[3]
     t2 = elaborate_obs(D)[3]
-    return t1 != t2, [sha(t1), sha(t2)]
+    # and the SAME design object converted twice (state that one conversion leaves in the user's objects — Signal.attrs,
+    # names, memories — would change the second text), observed next to the freshly built copies
+    top, _, ports, _ = build_design(D)
+    t3 = rtlil.convert(top, ports=ports)
+    t4 = rtlil.convert(top, ports=ports)
+    return not (t1 == t2 == t3 == t4), [sha(t1), sha(t2), sha(t3), sha(t4)]
 
 
 def check_reset_rerun(D, S):
@@ -1503,12 +1510,21 @@ def check_reset_rerun(D, S):
     stats["active"] = int(len(sim1._engine._active_triggers) > 0)
     sim1.reset()
     bad = []
+    # declared initial contents from the CASE (not from the objects: a simulation that overwrites Memory.init itself
+    # must not be able to hide behind the comparison); widths are plain unsigned, rows beyond the list are 0
+    declared = sorted(tuple((int(v) % (1 << mm["w"])) for v in (list(mm["init"]) + [0] * mm["depth"])[:mm["depth"]])
+                      for mm in design_mems(D))
+    found = []
     for sl in sim1._engine._state.slots:       # all signals and memories back at their initial contents
         if type(sl).__name__ == "_PySignalState":
             if sl.curr != sl.signal.init or sl.next != sl.signal.init:
                 bad.append(sl.signal.name)
-        elif list(sl.data) != list(sl.memory._init._raw) or sl.write_queue:
-            bad.append("memory")
+        else:
+            found.append(tuple(int(v) for v in sl.data))
+            if list(sl.data) != list(sl.memory._init._raw) or sl.write_queue:
+                bad.append("memory")
+    if sorted(found) != declared:
+        bad.append("memory-declared-init")
     if bad or sim1._engine.now != 0:
         return "reset-init", {"not_initial": bad, "now": int(sim1._engine.now)}, stats
     del tr1[:]
